@@ -126,6 +126,11 @@ func (v Value) Hash() uintptr {
 	if v.scalar != 0 {
 		return goRuntimeInt64Hash(v.scalar, 0)
 	}
+	if c, ok := v.iface.(*Closure); ok {
+		// Closures are compared structurally by Equals, so they must be hashed
+		// structurally too (equal values must have equal hashes).
+		return c.hash()
+	}
 	return goRuntimeEfaceHash(v.iface, 0)
 }
 
